@@ -120,7 +120,8 @@ def exc_signature(e):
 
 class Clause:
     def __init__(self, name, strategy=None, check=None, quick=200, thorough=2000,
-                 rule="", cases=None, floors=None, fuzz=False, essential=None, doc="", cross_shard=False, thorough_only=False):
+                 rule="", cases=None, floors=None, fuzz=False, essential=None, doc="", cross_shard=False, thorough_only=False,
+                 machine=None, machine_steps=12):
         self.name = name
         self.strategy = strategy
         self.check = check
@@ -132,6 +133,11 @@ class Clause:
         self.fuzz = fuzz            # eligible for the coverage-guided stage
         self.doc = doc
         self.thorough_only = thorough_only
+        # machine(record) -> a hypothesis.stateful.RuleBasedStateMachine subclass whose rules BUILD a history (the same JSON value the
+        # data-driven clauses generate) while driving a live object, so that rule arguments can depend on the run-time state; at
+        # teardown it hands the finished history to record(case), which judges it with `check` like any other case
+        self.machine = machine
+        self.machine_steps = machine_steps
         self.cross_shard = cross_shard  # every shard runs the *same* generated cases; values compared across shards
 
     @property
